@@ -399,6 +399,8 @@ class Parser(ExprParser):
             if self.have("COMMA"):
                 if self.have("VARARG"):
                     raise NotImplementedError("varargs")
+                elif self.peek("RPAREN"):
+                    self.error_msg("Expected a parameter after ','")
             else:
                 break
         self.mustbe("RPAREN")
